@@ -1,4 +1,22 @@
-// harness ops for cps (filled in when the module is ported)
-pub fn handle(_op: &str, _args: &[&str], _text: &str) -> Option<String> {
-    None
+// harness ops for cps.rs and graph.rs: the real code through the wrappers.rs entry points
+use crate::wrappers::{
+    py_cps_cant_blank, py_cps_cant_halt, py_cps_cant_spin_out, py_is_connected,
+};
+
+pub fn handle(op: &str, args: &[&str], text: &str) -> Option<String> {
+    match (op, args) {
+        ("cps_halt", [rad]) => {
+            Some(py_cps_cant_halt(text, rad.parse::<usize>().unwrap()).to_string())
+        },
+        ("cps_blank", [rad]) => {
+            Some(py_cps_cant_blank(text, rad.parse::<usize>().unwrap()).to_string())
+        },
+        ("cps_spin_out", [rad]) => {
+            Some(py_cps_cant_spin_out(text, rad.parse::<usize>().unwrap()).to_string())
+        },
+        ("connected", [states]) => {
+            Some(py_is_connected(text, states.parse::<u64>().unwrap()).to_string())
+        },
+        _ => None,
+    }
 }
